@@ -107,6 +107,11 @@ CLAIMED = {
             'The final image of a generated program is written to a read/write file object and opened from it; 1-3 modify_file_in_place calls pick a target (file / directory / missing path) and a new length class (0, 1, same, up to and beyond the sector boundary, one sector less). Refusals must leave the file byte-identical; an accepted call must only change the file\'s data sectors, the directory records / UDF file entry of its names and the size/date fields of the descriptors (regions located on the pre-image by the independent ISO9660/UDF readers), the result must be a valid image for the independent reader and reopen with every name of the content showing the new bytes and everything else unchanged.',
             'BytesIO backing file. The modification date field is allowed to change along with the size fields (interpretation).',
             'DESIGN.md section 3, C17'),
+    'C15': ('fault_enumeration',
+            'structured mutation fuzzing: Hypothesis-driven (quick) and coverage-guided atheris/libFuzzer (thorough) patches of valid base images taken from independent field maps; exception-type and work-bound oracle',
+            'One decoder turns (base image, patch list) into bytes: 48 valid base images from the history engine (all extension combinations) are truncated at drawn lengths, have fields from the independent readers\' field maps (lengths, extents, counts, tags, pointers - ISO9660, SUSP, path tables, El Torito, UDF, MBR/GPT) replaced by boundary/cyclic/out-of-range/byte-swapped/random values, or bytes flipped. open_fp on the result must return or raise a PyCdlibException subclass; a deterministic work bound on the reads of the image file, RLIMIT_AS and a 30 s alarm decide termination and memory. The thorough tier adds 15 atheris processes feeding the same decoder (and raw splices) with coverage feedback, from empty and seeded corpora. Violations are bucketed by (exception type, innermost repository frame).',
+            'Sampling of the byte-string space around valid images; arbitrary random bytes mostly die at the first magic check and are exercised through the raw-splice mode only.',
+            'DESIGN.md section 3, C15'),
 }
 
 NOT_YET = 'check not built yet in this session (work in progress; see DESIGN.md section 9 for the order)'
